@@ -389,7 +389,7 @@ fn run_variant<T: CellT>(case: &Value, variant: usize, log: &mut Vec<Value>) -> 
         RootObj::Plain(a) => origins_of(a.0.data()),
         RootObj::Slice(v) => {
             let o = origins_of(v);
-            if T::HAS_VALUE && (0..EXTRA).any(|i| o[nc * nr + i] != 888_000 + i as u32) {
+            if T::HAS_VALUE && (0..EXTRA).any(|i| o[nc * nr + i] != T::make(888_000 + i as u32).origin()) {
                 fails.push(Fail::new(n, "frame", json!({"note": "cells of the backing slice beyond the view were modified"})));
             }
             o[..nc * nr].to_vec()
